@@ -80,6 +80,7 @@ type Obligation struct {
 	TimeS   float64
 	Stage   string // qf | quant
 	Model   string
+	Owner   string // function [mode] the obligation was collected for (check.go)
 	replay  *replayInfo
 	QFile   string
 	Answers map[string]string
@@ -198,6 +199,9 @@ type Eng struct {
 	world          *World
 	roles          map[*ssa.Function]string
 	extraReach     []*Obligation
+	virtual        bool // inlined-helper numbering (fallback)
+	vcall          map[string]string
+	vloop          map[string]int
 	replay         *replayInfo
 	usedContracts  map[string]bool
 	curPos         token.Pos
